@@ -10,6 +10,7 @@ CONSTANTS
   MaxArr = 4
   MaxRestart = 1
   MaxCheck = 2
+  MaxReorg = 0
   Race = FALSE
   Fix <- CodeFix
   Mut = ""
